@@ -32,3 +32,18 @@ package model
 //@   ensures [ceil]   result*100 >= max*p.SSSSThreshold && (result-1)*100 < max*p.SSSSThreshold
 //@   ensures [range]  result >= 0 && result <= max
 //@   modifies nothing
+
+// The share public keys of a joined group's members (C15): a map from the member id (hex text) to the key every
+// share of that member is verified under.
+//@ func JoinedGroupInfo.AddMemberSignPK
+//@   property C15
+//@   requires joinedGroupInfo != nil && joinedGroupInfo.MemberSignPubkeyMap != nil
+//@   ensures [set]    has(joinedGroupInfo.MemberSignPubkeyMap, hexOf(memberId)) && joinedGroupInfo.MemberSignPubkeyMap[hexOf(memberId)] == signPK
+//@   ensures [others] forall k string :: k != hexOf(memberId) ==> has(joinedGroupInfo.MemberSignPubkeyMap, k) == old(has(joinedGroupInfo.MemberSignPubkeyMap, k)) && joinedGroupInfo.MemberSignPubkeyMap[k] == old(joinedGroupInfo.MemberSignPubkeyMap[k])
+//@   modifies entries(joinedGroupInfo.MemberSignPubkeyMap)
+
+//@ func JoinedGroupInfo.GetMemberSignPK
+//@   property C15
+//@   requires joinedGroupInfo != nil
+//@   ensures [found] ok == has(joinedGroupInfo.MemberSignPubkeyMap, hexOf(memberId)) && (ok ==> pk == joinedGroupInfo.MemberSignPubkeyMap[hexOf(memberId)])
+//@   modifies nothing
